@@ -30,6 +30,10 @@ type parseCase struct {
 	// As: "" (string/parser API), or the role of the source in a template
 	// directory: "page", "layout", "component"
 	As string `json:"as,omitempty"`
+	// configuration of the load (template directory cases)
+	Debug     bool   `json:"debug,omitempty"`
+	ErrorPage string `json:"error_page,omitempty"`
+	Siblings  bool   `json:"siblings,omitempty"` // sound files that sort before and after the others
 }
 
 func (cs *parseCase) UnmarshalJSON(b []byte) error {
@@ -518,13 +522,18 @@ func c08Tree(c *harness.Check, cs parseCase, _ bool) string {
 		tr["shared/real.tw"] = tree.Entry{Content: cs.Src}
 		tr["t/page.tw"] = tree.Entry{Kind: tree.Symlink, Content: "../shared/real.tw"}
 	}
+	if cs.Siblings {
+		tr["t/about.tw"] = tree.Entry{Content: "about {{ 1 + 1 }}"}
+		tr["t/zebra.tw"] = tree.Entry{Content: "zebra"}
+	}
 	if _, err := tree.Materialise(tr); err != nil {
 		return ""
 	}
 	var failure string
 	pi := c.Guard("json", mustJSON(cs), func() {
 		textwire.VerifReset()
-		tpl, err := textwire.NewTemplate(&config.Config{TemplateDir: "t", TemplateExt: ".tw"})
+		// whether a source ends in a program or an error does not depend on the configuration
+		tpl, err := textwire.NewTemplate(&config.Config{TemplateDir: "t", TemplateExt: ".tw", DebugMode: cs.Debug, ErrorPagePath: cs.ErrorPage})
 		if (tpl == nil) == (err == nil) {
 			failure = fmt.Sprintf("NewTemplate returned (%v, %v)", tpl, err)
 			return
@@ -541,7 +550,7 @@ func c08Tree(c *harness.Check, cs parseCase, _ bool) string {
 
 func TestC08_Trees(t *testing.T) {
 	c := harness.New(t, "C08", "trees",
-		"a sample of sources (generated valid templates, their prefixes inside constructs, lexeme soups) written as the only page (a regular file or a symbolic link to one), as the layout of a page and as a component of a page in a template directory and loaded with NewTemplate: returns (template, nil) or (nil, error), never panics or hangs; prefixes inside constructs must fail the load. Non-trivial: contains an opener. Distinct by hash of role + source.")
+		"a sample of sources (generated valid templates, their prefixes inside constructs, lexeme soups) written as the only page (a regular file or a symbolic link to one), as the layout of a page and as a component of a page in a template directory (alone or between sound files that sort before and after it; debug mode on or off; no, an existing or a missing custom error page) and loaded with NewTemplate: returns (template, nil) or (nil, error), never panics or hangs; prefixes inside constructs must fail the load. Non-trivial: contains an opener. Distinct by hash of role + source.")
 	defer c.Finish()
 	alpha := c08Alphabet()
 	runRapid(t, c, 1500, 18000, func(rt *rapid.T) {
@@ -568,8 +577,11 @@ func TestC08_Trees(t *testing.T) {
 			return
 		}
 		cs.As = rapid.SampledFrom([]string{"page", "layout", "component", "symlinked-page"}).Draw(rt, "as")
+		cs.Debug = rapid.IntRange(0, 2).Draw(rt, "debug") == 0
+		cs.ErrorPage = rapid.SampledFrom([]string{"", "", "zebra", "nosuch"}).Draw(rt, "errorPage")
+		cs.Siblings = cs.ErrorPage == "zebra" || rapid.Bool().Draw(rt, "siblings")
 		nt := c08NonTrivial(cs.Src)
-		c.Case(nt, cs.As+"|"+cs.Src, "as:"+cs.As)
+		c.Case(nt, cs.As+"|"+cs.Src+fmt.Sprint(cs.Debug, cs.ErrorPage, cs.Siblings), "as:"+cs.As, fmt.Sprintf("debug:%v", cs.Debug), fmt.Sprintf("siblings:%v", cs.Siblings))
 		if nt {
 			c.Sample(cs)
 		}
